@@ -14,6 +14,7 @@
 
 use std::collections::HashMap;
 use std::sync::Arc;
+use std::sync::atomic::{AtomicBool, Ordering};
 use std::time::Duration;
 
 use egg::{Id, Language};
@@ -533,6 +534,11 @@ impl<S: Storage> Builder<S> {
         // active receiver discards every message already broadcast to it, which loses chunks
         // when the task starts on another worker thread.
         let rx = rx.deactivate();
+        // Set when the stream has been drained. If the task dies before that (a panic in the
+        // executor), the channel is closed as well, and subscribers must not take it for the
+        // end of the stream.
+        let finished = Arc::new(AtomicBool::new(false));
+        let finished_by_task = finished.clone();
         let handle = tokio::task::Builder::default()
             .name(&format!("{id}.{name}"))
             .spawn(
@@ -546,6 +552,7 @@ impl<S: Storage> Builder<S> {
                             return;
                         }
                     }
+                    finished_by_task.store(true, Ordering::SeqCst);
                 }
                 .instrument(tracing::info_span!("executor", id = usize::from(id), name))
                 .timed(span),
@@ -555,6 +562,7 @@ impl<S: Storage> Builder<S> {
         StreamSubscriber {
             rx,
             handle: Arc::new(AbortOnDropHandle(handle)),
+            finished,
         }
     }
 }
@@ -565,6 +573,8 @@ impl<S: Storage> Builder<S> {
 struct StreamSubscriber {
     rx: async_broadcast::InactiveReceiver<Result<DataChunk>>,
     handle: Arc<AbortOnDropHandle>,
+    /// Whether the executor task has produced its whole output.
+    finished: Arc<AtomicBool>,
 }
 
 impl StreamSubscriber {
@@ -574,14 +584,24 @@ impl StreamSubscriber {
         async fn to_stream(
             rx: async_broadcast::Receiver<Result<DataChunk>>,
             handle: Arc<AbortOnDropHandle>,
+            finished: Arc<AtomicBool>,
         ) {
             #[for_await]
             for chunk in rx {
                 yield chunk?;
             }
+            // The channel is closed. If the task did not reach the end of its stream, it died
+            // (panicked): report an error rather than a truncated result.
+            if !finished.load(Ordering::SeqCst) {
+                Err(ExecutorError::aborted())?;
+            }
             drop(handle);
         }
-        to_stream(self.rx.activate_cloned(), self.handle.clone())
+        to_stream(
+            self.rx.activate_cloned(),
+            self.handle.clone(),
+            self.finished.clone(),
+        )
     }
 }
 
